@@ -576,6 +576,29 @@ def c16_links(model, rep, r):
                         rep.violation("R2", "system.System.%s" % mname, "%s:%d" % (rel, e[4]),
                                       "a parent link to %s is created without recording the child's input order: the order registry and the graph disagree afterwards" % show_value(child),
                                       "link without order record")
+            if mname == "del_comp" and any(e[0] == "effect" and e[2] == "remove_node" for e in lf.events):
+                # a node is removed while its children stay: on every way through the loop over those children (one arbitrary child) the
+                # child's input order is rewritten - otherwise it keeps the index of the removed node, which the graph hands out again
+                depth, in_child_loop, had_store, loops = 0, [], [], 0
+                for e in lf.events:
+                    if e[0] == "loop":
+                        is_childs = "_get_childs" in repr(e[1]) or "childs" in repr(e[1])
+                        in_child_loop.append(is_childs)
+                        had_store.append(False)
+                    elif e[0] == "endloop" and in_child_loop:
+                        was, st_ = in_child_loop.pop(), had_store.pop()
+                        if was:
+                            loops += 1
+                            if not st_:
+                                ok = False
+                                rep.violation("R2", "system.System.del_comp", "%s:%d" % (rel, e[1]),
+                                              "a child of the removed component can pass the re-linking loop without its input order being rewritten (path {%s}): it keeps the "
+                                              "index of the removed node, which the graph re-uses for the next component" % show_f(And(*[g[1] for g in lf.events if g[0] == "guard"]))[:300],
+                                              "kept child without order rewrite")
+                    elif e[0] == "store" and in_child_loop and any(in_child_loop):
+                        c = classify_store(e[1])
+                        if c and c[0] == "REG" and c[1] == reg:
+                            had_store = [True for _ in had_store]
             if mname in ("add_source",) and not stores:
                 ok = False
                 rep.violation("R2", "system.System.%s" % mname, "%s:%d" % (rel, fn.lineno), "a new node gets no entry in the input-order registry (a re-used node index would inherit a stale one)", "no order record")
